@@ -1,0 +1,89 @@
+//go:build verif
+
+package container
+
+import (
+	"fmt"
+	"os"
+
+	"github.com/criyle/go-sandbox/pkg/unixsocket"
+)
+
+// Verification hooks (build tag "verif"): observation only, no behaviour change.
+
+// VerifHook is set by the verification harness in the host process.
+var VerifHook struct {
+	// Msg is called for every framed message the host endpoint sends / receives.
+	Msg func(dir string, kind string)
+	// Point is called at named points of host-side operations; it may block.
+	Point func(name string)
+}
+
+// VerifCmd / VerifReply expose the protocol message types for two-ended tests of the framed socket.
+type (
+	VerifCmd        = cmd
+	VerifReply      = reply
+	VerifErrorReply = errorReply
+	VerifExecReply  = execReply
+	VerifExecCmd    = execCmd
+	VerifSocket     = socket
+)
+
+// VerifNewSocket wraps a unix socket in the gob-framed layer.
+func VerifNewSocket(s *unixsocket.Socket) *VerifSocket { return newSocket(s) }
+
+// VerifBufferSize is the frame size of the framed layer.
+const VerifBufferSize = bufferSize
+
+// VerifInitPid returns the host pid of the container init behind an Environment (0 if unknown).
+func VerifInitPid(e Environment) int {
+	if c, ok := e.(*container); ok && c.process != nil {
+		return c.process.Pid
+	}
+	return 0
+}
+
+func verifKind(e any) string {
+	switch v := e.(type) {
+	case cmd:
+		return fmt.Sprintf("cmd:%d", v.Cmd)
+	case *cmd:
+		return fmt.Sprintf("cmd:%d", v.Cmd)
+	case reply:
+		return verifReplyKind(&v)
+	case *reply:
+		return verifReplyKind(v)
+	}
+	return fmt.Sprintf("%T", e)
+}
+
+func verifReplyKind(r *reply) string {
+	switch {
+	case r.Error != nil:
+		return "reply:error"
+	case r.ExecReply != nil:
+		return "reply:exec"
+	case r.BatchErrors != nil:
+		return "reply:batch"
+	}
+	return "reply:ok"
+}
+
+var verifIsInit = os.Getpid() == 1 && len(os.Args) >= 2 && os.Args[1] == initArg
+
+func verifMsg(dir string, e any) {
+	if verifIsInit {
+		// the container endpoint reports through its stderr (collected by Builder.Stderr on the host)
+		fmt.Fprintf(os.Stderr, "VMSG %s %s\n", dir, verifKind(e))
+		return
+	}
+	if f := VerifHook.Msg; f != nil {
+		f(dir, verifKind(e))
+	}
+}
+
+func verifPoint(name string) {
+	if f := VerifHook.Point; f != nil {
+		f(name)
+	}
+}
